@@ -148,6 +148,53 @@ class Ctx:
                 "nontrivial_counted": self.nontrivial_counted, "exhaustive": self.exhaustive, "extra": self.extra}
 
 
+class CaseCpuLimit(BaseException):
+    """Raised by the per-case CPU-time alarm (never a verdict by itself)."""
+
+
+CASE_CPU_S = [float(os.environ.get("VERIF_CASE_CPU_S", "30"))]   # after the first alarm in a process: 8 s
+FORCE_LINE_GUARD = [False]      # read by vlib.agp.Run: bound every solver call by executed lines
+
+
+def run_case(body, case):
+    """body(case) under a CPU-time alarm.  A case that burns CASE_CPU_S seconds of CPU (cases take milliseconds to
+    a few seconds; 30 s, then 8 s once an alarm has fired in the process) is abandoned - whatever it returned or raised after the alarm is discarded, because
+    Process.Solve swallows the alarm like any other exception - and re-run once, without a clock, with every solver
+    call bounded by a count of executed Python lines: the verdict 'does not terminate' is then deterministic; a
+    case that is merely slow passes the re-run."""
+    import signal
+    fired = [False]
+
+    def on_alarm(signum, frame):
+        fired[0] = True
+        raise CaseCpuLimit()
+
+    try:
+        old = signal.signal(signal.SIGVTALRM, on_alarm)
+    except ValueError:          # not in the main thread: no alarm available
+        return guarded(body, case)
+    signal.setitimer(signal.ITIMER_VIRTUAL, CASE_CPU_S[0], CASE_CPU_S[0])
+    try:
+        try:
+            res = guarded(body, case)
+            if not fired[0]:
+                return res
+        except CaseCpuLimit:
+            pass
+        except BaseException:
+            if not fired[0]:
+                raise
+    finally:
+        signal.setitimer(signal.ITIMER_VIRTUAL, 0)
+        signal.signal(signal.SIGVTALRM, old)
+    CASE_CPU_S[0] = min(CASE_CPU_S[0], 8.0)
+    FORCE_LINE_GUARD[0] = True
+    try:
+        return guarded(body, case)
+    finally:
+        FORCE_LINE_GUARD[0] = False
+
+
 def hyp_settings(max_examples, stateful_steps=None, shrink=True):
     from hypothesis import settings, HealthCheck, Phase
     kw = dict(max_examples=max_examples, database=None, deadline=None, derandomize=False,
@@ -182,7 +229,7 @@ def hyp_run(ctx, strategy, body, max_examples, shrink_calls=None, salt=0):
             with open(os.path.join(trace_dir, "%s-%d.json" % (ctx.kind, os.getpid())), "w") as f:
                 json.dump({"t": time.time(), "case": jsonable(case)}, f)
         try:
-            res = guarded(body, case)
+            res = run_case(body, case)
         except Violation as v:
             st["best"] = (jsonable(case), str(v))
             raise
